@@ -27,6 +27,17 @@ CLAIMS["C10"] = dict(
   technique="edge dominance with normalised comparison patterns, phi provenance for the memoised size",
   ref="DESIGN.md §3 C10")
 
+CLAIMS["C08"] = dict(
+  text="All-paths rules: every Scan return goes through newScanResult, which sorts statuses, packages, findings and each package's locations unconditionally with the right comparators; the comparators compare the same key of both operands (operand-mirror rule) and cover the documented keys; the walk context's per-root result fields are re-initialised with fresh values before every root's walk and Run appends exactly that root's inventory once; Inventory.Append carries packages and findings; the gitignore pattern stack is balanced over every directory (a directory returning nil or SkipDir has pushed exactly once, the pop removes one under the same conditions). Level 'other': necessary conditions for order- and root-count-independence; equality of multisets over permutations is not decided.",
+  note="Trusted: go/ssa; access-path rendering of pure operands; slices.SortFunc/sort.Strings contracts.",
+  technique="must-pass-through, operand-mirror (access path) comparison, reset-on-all-paths, push/pop pairing on SSA",
+  ref="DESIGN.md §3 C08")
+CLAIMS["C20"] = dict(
+  text="All-paths rules: Scan builds the package index from the result inventory's packages after both the file-system and the standalone packages are in it and hands that index to detector.Run; Run scans each detector once, tags every finding with exactly that detector's name, appends all findings and a status built from that call's error in every iteration; findings are returned only after validateAdvisories passed (nil advisory, nil ID, unequal advisories under an equal ID value all fail; the ID map is keyed by value); the index stores each package under the type and name of its own package URL and GetSpecific looks up in the same order. Level 'other': structural necessary conditions for every inventory/detector set.",
+  note="Trusted: go/ssa; reflect.DeepEqual semantics; same-value provenance through phis and locals.",
+  technique="must-pass-through + same-value provenance + type check of the advisory map key",
+  ref="DESIGN.md §3 C20")
+
 NA = {}
 
 
